@@ -115,7 +115,10 @@ def _gen_rq_random(rng, n):
         prios = [-1, 0, 1, 1, 2, 2, 3] if rng.random() < 0.7 else [1, 2]
         ents = [(u, rng.choice("QQQLLLLRCXO"), rng.choice(prios), rng.choice([1, 1, 2])) for u in uuids]
         pool = uuids + [9]
-        running = [u for u in pool if rng.random() < 0.2]
+        # Running() entries: live (zero time) or the pool's "exited at t" placeholder (`u:t`; the queue
+        # snapshot is stamped 5: exited before / after the last queue update)
+        running = ["%d:%d" % (u, rng.randrange(10)) if rng.random() < 0.4 else u
+                   for u in pool if rng.random() < 0.25]
         unalloc = [(t, rng.choice([-1, 0, 0, 1, 1, 2, 3])) for t in (1, 2, 3) if rng.random() < 0.7]
         script = "".join(rng.choice("01") for _ in range(rng.choice([0, 2, 4, 6, 8, 10, 12])))
         if rng.random() < 0.3:
@@ -130,12 +133,12 @@ def _gen_rq_exhaustive(tier, rng):
     out = []
     # one container: every state x priority x type x running x unalloc x script
     for st, pr, ty in itertools.product(STATES, (0, 1, 2), (1, 2)):
-        for run in ((), (1,)):
+        for run in ((), (1,), ("1:3",), ("1:7",)):
             for un in itertools.product((0, 1), repeat=2):
                 for sc in itertools.product("01", repeat=4):
                     out.append(_rq_case([(1, st, pr, ty)], run, [(1, un[0]), (2, un[1])], "".join(sc)))
     if tier != "thorough":
-        return rng.sample(out, 600)
+        return rng.sample(out, 900)
     # two containers
     dom = list(itertools.product("QLX", (0, 1, 2), (1, 2)))
     for a, b in itertools.product(dom, repeat=2):
@@ -233,7 +236,8 @@ def _gen_pl(rng, n):
             if r < 0.17:
                 ops.append("st%d:%d" % (rng.choice([1, 1, 2]), u))
             elif r < 0.27:
-                ops.append("sd%d" % u)
+                # the start command returns -- now and then with an error (which says nothing about the process)
+                ops.append("sd%d" % u + (":1" if rng.random() < 0.3 else ""))
             elif r < 0.33:
                 ops.append("kl%d" % u)
             elif r < 0.38:
@@ -318,8 +322,9 @@ def _gen_fs(rng, n):
 
 def _gen_pl_truthful(rng, n):
     """Op sequences on one or two idle workers in which every probe answer is what a truthful VM would
-    say: a process exists from the moment its `crunch-run --detach` is released (`sd`) and never exits; a
-    probe reports the processes that existed when it began. Marked with the op `tt`; the oracle then demands
+    say: a process exists from the moment its `crunch-run --detach` is released (`sd`) and never exits -- also
+    when the SSH command that launched it reports an error to the dispatcher (`sd<u>:1`: connection lost after
+    the process was detached); a probe reports the processes that existed when it began. Marked with the op `tt`; the oracle then demands
     that Running() reports every such process as alive."""
     out = []
     for _ in range(n):
@@ -341,7 +346,7 @@ def _gen_pl_truthful(rng, n):
                 busy[w] = True                       # worker is Running from now on (no second start)
             elif r < 0.55 and pending:
                 u = rng.choice(sorted(pending))
-                ops.append("sd%d" % u)
+                ops.append("sd%d" % u + (":1" if rng.random() < 0.35 else ""))
                 alive[pending.pop(u)].append(u)
             elif r < 0.8 and w not in probing:
                 ops.append("pb%d:0" % w)
@@ -521,7 +526,8 @@ def _ents(s):
 
 def _oracle_rq(f, impl):
     ents = _ents(f[1])
-    running = {int(u) for u in _split(f[2])}
+    running = {int(u.split(":")[0]) for u in _split(f[2])}
+    exited = {int(u.split(":")[0]) for u in _split(f[2]) if ":" in u}
     latched = {int(u) for u in _split(f[5])}
     now = dict((int(u), s) for u, s in (x.split(":") for x in _split(f[6])))
     if ";" not in impl:
@@ -539,6 +545,10 @@ def _oracle_rq(f, impl):
             return f"StartContainer for container {u} which is not Locked in the queue ({e})"
         if e[1] < 1:
             return f"StartContainer for container {u} with priority {e[1]}"
+        if u in exited:
+            return (f"StartContainer for container {u} whose previous crunch-run exited so recently that the pool still "
+                    f"reports it in Running() (its final state may not have reached the queue yet: a container that "
+                    f"has already run would be started again)")
         if u in running:
             return f"StartContainer for container {u} which the pool reports as running"
         if e[2] != t:
@@ -649,7 +659,7 @@ def _oracle_pl(f, impl):
         # truthful case: every process launched (its start command was released) is alive at the end and
         # must be reported by Running() as alive (no exit time), otherwise the scheduler would requeue or
         # restart it while it runs
-        launched = {int(o[2:]) for o in ops if o.startswith("sd")}
+        launched = {int(o[2:].split(":")[0]) for o in ops if o.startswith("sd")}
         started = {int(o[2:].split(":")[1]) for o, t in zip([o for o in ops if o[:2] in ("st", "kl", "rn", "gs")], toks)
                    if o.startswith("st") and t != "w0"}
         live = launched & started
@@ -896,7 +906,7 @@ def nontrivial_key(case, impl):
 
 def describe(cases, impl):
     d = {"ops": {}, "rq_containers": {}, "rq_with_priority_ties": 0, "rq_starts": 0, "rq_locks": 0,
-         "rq_overquota": 0, "sy_actions": {}}
+         "rq_overquota": 0, "rq_with_exit_placeholder": 0, "pl_start_cmds_returning_error": 0, "sy_actions": {}}
     for c, r in zip(cases, impl):
         f = c.split(" ")
         d["ops"][f[0]] = d["ops"].get(f[0], 0) + 1
@@ -906,10 +916,14 @@ def describe(cases, impl):
             pr = [e[1] for e in es.values()]
             if len(set(pr)) < len(pr):
                 d["rq_with_priority_ties"] += 1
+            if ":" in f[2]:
+                d["rq_with_exit_placeholder"] += 1
             if r:
                 d["rq_starts"] += len(re.findall(r"\bst\d", r))
                 d["rq_locks"] += len(re.findall(r"\bql\d", r))
                 d["rq_overquota"] += 1 if "aq=1" in r else 0
+        elif f[0] == "pl":
+            d["pl_start_cmds_returning_error"] += len(re.findall(r"\bsd\d+:1\b", f[3]))
         elif f[0] == "e2e" and r and r.startswith("e2e-crash "):
             e = d.setdefault("e2e_dispatcher_panics", {})
             key = next((b for a, b in KNOWN_PANICS if a in r and b in r), "other")
